@@ -6,7 +6,9 @@ package main
 //
 //	encblock <build> <rev> <overflows> <bucket> <rows> ((xNAME ty cdata) ...)          -> ok xBYTES | err
 //	decblock <auto t|f> <build> <rev> (zones) (target ...) xBYTES
-//	      -> ok <columns> <rows> (target ...) <bytes left> | fail (target ...) | crash
+//	      -> ok <columns> <rows> (target ...) <bytes left> | fail (target ...) ((<Rows()> <t|f>) ...) | crash
+//	         (after a failure every target is printed as it is - the failing one with the half-decoded column the decoder
+//	         left - followed, per target, by Rows() and whether Row(i) returns for every i below it)
 //	decseq   <auto t|f> <build> <rev> (zones) (target ...) (xBLOCK ...)                 -> seq (<decblock result>) ...
 //
 // target = (xNAME ty cdata) | (xNAME auto) | (xNAME auto xDATATYPE ty cdata), printed before (case) and
@@ -21,6 +23,13 @@ package main
 //	shape      permuted / renamed / blank names / extra / missing columns, zero-row header blocks with and without targets
 //	seq        2-3 blocks with changing schemas against the same targets
 //	malformed  truncated and altered blocks, custom-serialization flag set
+//	nested     adoption below wrappers: Array / Map (also nested in each other) around Enum, DateTime, DateTime64 leaves,
+//	           2-3 blocks whose types differ in leaf parameters only, against targets built blank or with other
+//	           parameters; Nullable / LowCardinality as wrappers, Map sides whose types contain commas
+//	arity      Tuple / Map types of different arity where one is an element-wise compatible prefix of the other, in both
+//	           directions, followed by a String column (what a mis-bound tuple would read); every ordered pair, every run
+//	failbind   a block that fails (cut / altered / foreign schema) followed by well-formed blocks of the targets' own
+//	           schema: the later blocks must bind exactly (reset-before-decode), whatever the failed one left behind
 
 import (
 	"bytes"
@@ -43,6 +52,7 @@ type c18Spec struct {
 	inferAs    string // after mk(): Infer(inferAs) gives the column its parameters (source columns need them)
 	targetOnly bool   // a column without parameters: usable as a target only
 	noBind     bool   // ColTuple.Infer hands the whole Tuple(...) string to every inferable element: such a tuple rejects its own type
+	alias      string // a source only: the filled column is sent under this type string (proto.Alias)
 }
 
 func (s c18Spec) label() string {
@@ -191,6 +201,9 @@ func (s c18Spec) filled(rows int, seed int64) (proto.Column, error) {
 	}
 	if err := c14Fill(col, rows, rand.New(rand.NewSource(seed)), s.c14ColSpec); err != nil {
 		return nil, err
+	}
+	if s.alias != "" {
+		col = proto.Alias(col, proto.ColumnType(s.alias))
 	}
 	return col, nil
 }
@@ -341,14 +354,131 @@ func c18Obs(o c18Out, res proto.Results) string {
 	if o.crashed {
 		return "crash " + c18Clean(o.err.Error())
 	}
+	if c18Huge(res) {
+		return "-" // a corrupted count made a decoder allocate a huge column: not dumped, not compared
+	}
 	ts, ok := c18TargetsSx(res)
 	if !ok {
 		return "-"
 	}
 	if o.err != nil {
-		return "fail " + ts
+		acc, ok := c18Acc(res)
+		if !ok || len(ts) > c18DumpMax {
+			return "-"
+		}
+		return "fail " + ts + " " + acc
 	}
 	return fmt.Sprintf("ok %d %d %s %d", o.blk.Columns, o.blk.Rows, ts, o.left)
+}
+
+const (
+	c18AccMax  = 200000
+	c18DumpMax = 1 << 20
+)
+
+func c18Huge(res proto.Results) bool {
+	for _, rc := range res {
+		if c18Weight(rc.Data) > c18AccMax {
+			return true
+		}
+	}
+	return false
+}
+
+// c18Weight: the number of elements a column object holds at all nesting levels (Rows() of an Array says nothing about
+// the size of its element column)
+func c18Weight(c any) (n int) {
+	defer func() {
+		if recover() != nil {
+			n = 0
+		}
+	}()
+	if c == nil {
+		return 0
+	}
+	if a, ok := c.(*proto.ColAuto); ok {
+		if a.Data == nil {
+			return 0
+		}
+		return c18Weight(a.Data)
+	}
+	if tup, ok := c.(proto.ColTuple); ok {
+		for _, m := range tup {
+			n += c18Weight(m)
+		}
+		return n
+	}
+	if _, ok := c.(interface{ ColumnName() string }); ok {
+		return c18Weight(deref(reflect.ValueOf(c)).Field(0).Interface())
+	}
+	v := deref(reflect.ValueOf(c))
+	if v.Kind() == reflect.Struct {
+		switch typeBase(v.Type()) {
+		case "ColArr":
+			return v.FieldByName("Offsets").Len() + c18Weight(v.FieldByName("Data").Interface())
+		case "ColNullable":
+			return v.FieldByName("Nulls").Len() + c18Weight(v.FieldByName("Values").Interface())
+		case "ColMap":
+			return v.FieldByName("Offsets").Len() + c18Weight(v.FieldByName("Keys").Interface()) + c18Weight(v.FieldByName("Values").Interface())
+		case "ColLowCardinality":
+			return v.FieldByName("Values").Len() + c18Weight(reflectIface(v.FieldByName("index")))
+		}
+	}
+	if r, ok := c.(interface{ Rows() int }); ok {
+		return r.Rows()
+	}
+	return 0
+}
+
+// c18Readable: Row(i) returns (does not panic) for every i < n
+func c18Readable(c any, n int) (ok bool) {
+	defer func() {
+		if recover() != nil {
+			ok = false
+		}
+	}()
+	if a, isA := c.(*proto.ColAuto); isA {
+		return c18Readable(a.Data, n)
+	}
+	if tup, isT := c.(proto.ColTuple); isT {
+		for _, m := range tup {
+			if !c18Readable(m, n) {
+				return false
+			}
+		}
+		return true
+	}
+	m := reflect.ValueOf(c).MethodByName("Row")
+	if !m.IsValid() || m.Type().NumIn() != 1 {
+		return true
+	}
+	for i := 0; i < n; i++ {
+		m.Call([]reflect.Value{reflect.ValueOf(i)})
+	}
+	return true
+}
+
+// c18Acc: what the accessors of every target say: Rows(), and whether every row below it can be read
+func c18Acc(res proto.Results) (string, bool) {
+	xs := make([]string, len(res))
+	for i, rc := range res {
+		n := c18Rows(rc.Data)
+		switch {
+		case n < 0:
+			xs[i] = sx("-1", "t")
+		case n > c18AccMax:
+			return "", false
+		default:
+			rd := bsym(c18Readable(rc.Data, n))
+			// ColFixedStr.Row slices its buffer: below a wrapper a row beyond the buffer's length but within its
+			// capacity (memory of an earlier block) is returned, not refused - capacity is not an observable here
+			if ty, _, err := colDump(rc.Data); err != nil || (strings.Contains(ty, "(fstr ") && !strings.HasPrefix(ty, "(fstr ")) {
+				rd = "?"
+			}
+			xs[i] = sx(strconv.Itoa(n), rd)
+		}
+	}
+	return sx(xs...), true
 }
 
 // ---------------------------------------------------------------- the direct oracle
@@ -459,18 +589,55 @@ func c18Adopted(col any, srv string, hadZone string) string {
 		switch typeBase(v.Elem().Type()) {
 		case "ColArr":
 			return c18Adopted(v.Elem().FieldByName("Data").Interface(), string(proto.ColumnType(srv).Elem()), "")
+		case "ColNullable":
+			return c18Adopted(v.Elem().FieldByName("Values").Interface(), string(proto.ColumnType(srv).Elem()), "")
+		case "ColLowCardinality":
+			return c18Adopted(reflectIface(v.Elem().FieldByName("index")), string(proto.ColumnType(srv).Elem()), "")
 		case "ColMap":
-			k, val, ok := strings.Cut(string(proto.ColumnType(srv).Elem()), ",")
-			if !ok {
+			args := c18TopArgs(string(proto.ColumnType(srv).Elem()))
+			if len(args) != 2 {
 				return ""
 			}
-			if m := c18Adopted(v.Elem().FieldByName("Keys").Interface(), strings.TrimSpace(k), ""); m != "" {
+			if m := c18Adopted(v.Elem().FieldByName("Keys").Interface(), strings.TrimSpace(args[0]), ""); m != "" {
 				return m
 			}
-			return c18Adopted(v.Elem().FieldByName("Values").Interface(), strings.TrimSpace(val), "")
+			return c18Adopted(v.Elem().FieldByName("Values").Interface(), strings.TrimSpace(args[1]), "")
 		}
 	}
 	return ""
+}
+
+// c18TopArgs: the arguments of a composite type, i.e. the pieces between the commas that are outside every pair of
+// parentheses and outside quotes (the oracle's own reading of a type string)
+func c18TopArgs(s string) []string {
+	var out []string
+	depth, start := 0, 0
+	inQuote := false
+	for i := 0; i < len(s); i++ {
+		c := s[i]
+		if inQuote {
+			if c == '\\' {
+				i++
+			} else if c == '\'' {
+				inQuote = false
+			}
+			continue
+		}
+		switch c {
+		case '\'':
+			inQuote = true
+		case '(':
+			depth++
+		case ')':
+			depth--
+		case ',':
+			if depth == 0 {
+				out = append(out, s[start:i])
+				start = i + 1
+			}
+		}
+	}
+	return append(out, s[start:])
 }
 
 type c18Pre struct {
@@ -483,6 +650,9 @@ func c18Snapshot(res proto.Results) []c18Pre {
 	out := make([]c18Pre, len(res))
 	for i, rc := range res {
 		out[i].name = rc.Name
+		if c18Weight(rc.Data) > c18AccMax {
+			continue // left by a failed block with a corrupted count: not dumped (data stays "": not judged)
+		}
 		if a, ok := rc.Data.(*proto.ColAuto); ok && a.Data == nil {
 			out[i].data = "auto"
 			continue
@@ -578,6 +748,12 @@ func c18Judge(auto bool, pre []c18Pre, res proto.Results, o c18Out, rows int, sr
 		return "ok"
 	}
 	// failure
+	// a well-formed block can only be rejected as a mismatch (count, name, type, inference) or because a compatible target
+	// cannot represent a value (an Enum without that code): a decoder that runs off the column's bytes was bound to a
+	// column of another layout
+	if e := o.err.Error(); strings.Contains(e, "EOF") {
+		return "FAIL:layout: a well-formed block made a column decoder run past its column's data: " + c18Clean(e)
+	}
 	if grown {
 		// Results.Auto appends the columns it decoded: a prefix of the block
 		for i, rc := range res {
@@ -1107,7 +1283,7 @@ func runC18(h *H) {
 	want := func(k string) bool { return kind == "" || kind == k }
 	n := h.N
 	if kind == "" {
-		n = h.N / 5
+		n = h.N / 6
 	}
 	if want("roundtrip") {
 		c18Roundtrip(h, sources, n)
@@ -1123,5 +1299,487 @@ func runC18(h *H) {
 	}
 	if want("malformed") {
 		c18Malformed(h, sources, n/2)
+	}
+	if want("nested") {
+		c18NestedFam(h, n/3)
+	}
+	if want("failbind") {
+		c18FailBind(h, sources, n/3)
+	}
+	if want("arity") {
+		c18Arity(h)
+	}
+}
+
+// ---------------------------------------------------------------- sequences of blocks, generic
+
+type c18Blk struct {
+	wire       []byte
+	rows       int
+	srcs       []c18Src
+	wellFormed bool
+	mustBind   string // non-empty: a rejection of this block is a failure of the property (the text says why)
+}
+
+// c18RunSeq decodes the blocks one after the other into the same Results, judges every block and emits one decseq line.
+func c18RunSeq(h *H, kind string, auto bool, rev int, res proto.Results, blks []c18Blk) {
+	before, dumpable := c18TargetsSx(res)
+	var wires, obss, types []string
+	oracle := "ok"
+	sticky := make([]string, len(res))
+	for bi, b := range blks {
+		if b.wellFormed {
+			for _, s := range b.srcs {
+				types = append(types, s.typ)
+			}
+		} else {
+			types = append(types, string(b.wire))
+		}
+		pre := c18Snapshot(res)
+		// the names the good block must meet are the ones the targets have NOW (an earlier block may have filled them)
+		namesFit := len(pre) == len(b.srcs)
+		for j := range pre {
+			if namesFit && pre[j].name != "" && pre[j].name != b.srcs[j].name {
+				namesFit = false
+			}
+		}
+		o := c18Decode(auto, &res, rev, b.wire)
+		wires = append(wires, hx(b.wire))
+		obss = append(obss, "("+c18Obs(o, res)+")")
+		if v := c18Judge(auto, pre, res, o, b.rows, b.srcs, b.wellFormed); v != "ok" && oracle == "ok" {
+			oracle = fmt.Sprintf("%s (block %d of the sequence)", v, bi)
+		}
+		if b.mustBind != "" && namesFit && o.err != nil && oracle == "ok" {
+			oracle = fmt.Sprintf("FAIL:%s: block %d was rejected: %s", b.mustBind, bi, c18Clean(o.err.Error()))
+		}
+		for j := range res {
+			if j < len(sticky) {
+				if sticky[j] != "" && res[j].Name != sticky[j] && oracle == "ok" {
+					oracle = fmt.Sprintf("FAIL:name: target %d was %q and is %q after block %d", j, sticky[j], res[j].Name, bi)
+				}
+				sticky[j] = res[j].Name
+			}
+		}
+		if len(sticky) == 0 {
+			sticky = make([]string, len(res))
+			for j := range res {
+				sticky[j] = res[j].Name
+			}
+		}
+		switch {
+		case o.crashed:
+			h.Stat("c18." + kind + ".block.crash")
+		case o.err != nil:
+			h.Stat("c18." + kind + ".block.fail")
+		default:
+			h.Stat("c18." + kind + ".block.ok")
+		}
+		if o.crashed {
+			break
+		}
+	}
+	obs := "seq " + strings.Join(obss, " ")
+	if !dumpable || strings.Contains(obs, "(-)") {
+		obs = "-"
+	}
+	h.Emit(fmt.Sprintf("decseq %s %s %d %s %s %s", bsym(auto), buildName, rev, c18Zones(types...), before, sx(wires...)), obs, oracle)
+	h.Stat("c18." + kind)
+}
+
+// ---------------------------------------------------------------- nested adoption
+
+// a wrapper structure around adopting leaves, and type strings for it that differ in leaf parameters only.
+// Sources are built leaf first (the leaf's own Infer, then the wrappers around it), so that a wrapper whose Infer does
+// nothing still meets blocks that spell parameters; targets are built blank or around leaves of another variant.
+type c18NestSpec struct {
+	leaves   []func() proto.Column               // the adopting leaves, without parameters
+	wrap     func(l []proto.Column) proto.Column // the structure around them
+	variants []c18NestVar
+}
+
+type c18NestVar struct {
+	typ   string   // the type string of the whole structure
+	leafs []string // the type string of every leaf, in the order of [leaves]
+	pool  []string // admissible strings (enum names)
+}
+
+func c18NV(typ string, leafs []string, pool ...string) c18NestVar {
+	return c18NestVar{typ, leafs, pool}
+}
+
+func c18Enum() proto.Column { return new(proto.ColEnum) }
+func c18DT64() proto.Column { return new(proto.ColDateTime64) }
+func c18DT() proto.Column   { return new(proto.ColDateTime) }
+
+func c18Leafs(fs ...func() proto.Column) []func() proto.Column { return fs }
+
+func ss(xs ...string) []string { return xs }
+
+var c18Nests = []c18NestSpec{
+	{leaves: c18Leafs(c18Enum), wrap: func(l []proto.Column) proto.Column { return proto.NewArray[string](l[0].(*proto.ColEnum)) },
+		variants: []c18NestVar{
+			c18NV("Array(Enum8('a' = 1, 'b' = 2))", ss("Enum8('a' = 1, 'b' = 2)"), "a", "b"),
+			c18NV("Array(Enum8('c' = 1, 'd' = 2))", ss("Enum8('c' = 1, 'd' = 2)"), "c", "d"),
+			c18NV("Array(Enum16('a' = 1, 'b' = 2))", ss("Enum16('a' = 1, 'b' = 2)"), "a", "b"),
+			c18NV("Array(Enum8('b' = 1, 'a' = 2))", ss("Enum8('b' = 1, 'a' = 2)"), "a", "b"),
+			c18NV("Array(Enum8('a' = 1, 'b' = 2, 'c' = 3))", ss("Enum8('a' = 1, 'b' = 2, 'c' = 3)"), "a", "b", "c")}},
+	{leaves: c18Leafs(c18Enum), wrap: func(l []proto.Column) proto.Column {
+		return proto.NewArray[[]string](proto.NewArray[string](l[0].(*proto.ColEnum)))
+	}, variants: []c18NestVar{
+		c18NV("Array(Array(Enum8('a' = 1, 'b' = 2)))", ss("Enum8('a' = 1, 'b' = 2)"), "a", "b"),
+		c18NV("Array(Array(Enum8('c' = 1, 'd' = 2)))", ss("Enum8('c' = 1, 'd' = 2)"), "c", "d"),
+		c18NV("Array(Array(Enum16('x' = 300, 'y' = -2)))", ss("Enum16('x' = 300, 'y' = -2)"), "x", "y")}},
+	{leaves: c18Leafs(c18DT64), wrap: func(l []proto.Column) proto.Column { return l[0].(*proto.ColDateTime64).Array() },
+		variants: []c18NestVar{
+			c18NV("Array(DateTime64(3))", ss("DateTime64(3)")), c18NV("Array(DateTime64(6, 'UTC'))", ss("DateTime64(6, 'UTC')")),
+			c18NV("Array(DateTime64(9, 'Europe/Berlin'))", ss("DateTime64(9, 'Europe/Berlin')")), c18NV("Array(DateTime64(0))", ss("DateTime64(0)"))}},
+	{leaves: c18Leafs(c18DT64), wrap: func(l []proto.Column) proto.Column {
+		return proto.NewArray[[]time.Time](l[0].(*proto.ColDateTime64).Array())
+	}, variants: []c18NestVar{
+		c18NV("Array(Array(DateTime64(3)))", ss("DateTime64(3)")), c18NV("Array(Array(DateTime64(6, 'UTC')))", ss("DateTime64(6, 'UTC')")),
+		c18NV("Array(Array(DateTime64(9)))", ss("DateTime64(9)"))}},
+	{leaves: c18Leafs(c18DT), wrap: func(l []proto.Column) proto.Column { return l[0].(*proto.ColDateTime).Array() },
+		variants: []c18NestVar{
+			c18NV("Array(DateTime)", ss("DateTime")), c18NV("Array(DateTime('UTC'))", ss("DateTime('UTC')")),
+			c18NV("Array(DateTime('Europe/Moscow'))", ss("DateTime('Europe/Moscow')"))}},
+	{leaves: c18Leafs(c18Enum), wrap: func(l []proto.Column) proto.Column {
+		return proto.NewMap[string, string](new(proto.ColStr), l[0].(*proto.ColEnum))
+	}, variants: []c18NestVar{
+		c18NV("Map(String, Enum8('a' = 1))", ss("Enum8('a' = 1)"), "a"), c18NV("Map(String, Enum8('z' = 1))", ss("Enum8('z' = 1)"), "z"),
+		c18NV("Map(String, Enum16('q' = 500))", ss("Enum16('q' = 500)"), "q"),
+		// Map sides whose own type contains commas (repaired: ColMap.Infer cut the string at its first comma)
+		c18NV("Map(String, Enum8('a' = 1, 'b' = 2))", ss("Enum8('a' = 1, 'b' = 2)"), "a", "b"),
+		c18NV("Map(String, Enum8('c' = 1,'d' = 2,'e' = 3))", ss("Enum8('c' = 1,'d' = 2,'e' = 3)"), "c", "d", "e"),
+		c18NV("Map(String, Enum16('a' = 1000, 'b' = -1))", ss("Enum16('a' = 1000, 'b' = -1)"), "a", "b")}},
+	{leaves: c18Leafs(c18Enum, c18Enum), wrap: func(l []proto.Column) proto.Column {
+		return proto.NewMap[string, string](l[0].(*proto.ColEnum), l[1].(*proto.ColEnum))
+	}, variants: []c18NestVar{
+		c18NV("Map(Enum8('k' = 1), Enum8('k' = 7))", ss("Enum8('k' = 1)", "Enum8('k' = 7)"), "k"),
+		c18NV("Map(Enum8('x' = 1), Enum16('x' = 1000))", ss("Enum8('x' = 1)", "Enum16('x' = 1000)"), "x"),
+		c18NV("Map(Enum16('k' = 2, 'j' = 3), Enum8('j' = 3, 'k' = 4))", ss("Enum16('k' = 2, 'j' = 3)", "Enum8('j' = 3, 'k' = 4)"), "k", "j")}},
+	{leaves: c18Leafs(c18DT64), wrap: func(l []proto.Column) proto.Column {
+		return proto.NewMap[string, time.Time](new(proto.ColStr), l[0].(*proto.ColDateTime64))
+	}, variants: []c18NestVar{
+		c18NV("Map(String, DateTime64(3))", ss("DateTime64(3)")), c18NV("Map(String, DateTime64(6))", ss("DateTime64(6)")),
+		c18NV("Map(String, DateTime64(3, 'UTC'))", ss("DateTime64(3, 'UTC')")),
+		c18NV("Map(String, DateTime64(9, 'Europe/Berlin'))", ss("DateTime64(9, 'Europe/Berlin')"))}},
+	{leaves: c18Leafs(c18DT, c18DT64), wrap: func(l []proto.Column) proto.Column {
+		return proto.NewMap[time.Time, []time.Time](l[0].(*proto.ColDateTime), l[1].(*proto.ColDateTime64).Array())
+	}, variants: []c18NestVar{
+		c18NV("Map(DateTime('UTC'), Array(DateTime64(9)))", ss("DateTime('UTC')", "DateTime64(9)")),
+		c18NV("Map(DateTime, Array(DateTime64(3, 'UTC')))", ss("DateTime", "DateTime64(3, 'UTC')")),
+		c18NV("Map(DateTime('Europe/Moscow'), Array(DateTime64(6)))", ss("DateTime('Europe/Moscow')", "DateTime64(6)"))}},
+	{leaves: c18Leafs(c18Enum), wrap: func(l []proto.Column) proto.Column {
+		return proto.NewArray[map[string]string](proto.NewMap[string, string](new(proto.ColStr), l[0].(*proto.ColEnum)))
+	}, variants: []c18NestVar{
+		c18NV("Array(Map(String, Enum8('a' = 1)))", ss("Enum8('a' = 1)"), "a"),
+		c18NV("Array(Map(String, Enum8('b' = 1, 'c' = 2)))", ss("Enum8('b' = 1, 'c' = 2)"), "b", "c"),
+		c18NV("Array(Map(String, Enum16('a' = 9)))", ss("Enum16('a' = 9)"), "a")}},
+	{leaves: c18Leafs(c18Enum, c18Enum), wrap: func(l []proto.Column) proto.Column {
+		return proto.NewMap[string, []string](l[0].(*proto.ColEnum), proto.NewArray[string](l[1].(*proto.ColEnum)))
+	}, variants: []c18NestVar{
+		c18NV("Map(Enum8('k' = 1, 'j' = 2), Array(Enum8('k' = 1, 'j' = 2)))", ss("Enum8('k' = 1, 'j' = 2)", "Enum8('k' = 1, 'j' = 2)"), "k", "j"),
+		c18NV("Map(Enum16('k' = 5, 'j' = 6), Array(Enum8('j' = 1, 'k' = 2)))", ss("Enum16('k' = 5, 'j' = 6)", "Enum8('j' = 1, 'k' = 2)"), "k", "j"),
+		c18NV("Map(Enum8('k' = 1), Array(Enum16('k' = 300)))", ss("Enum8('k' = 1)", "Enum16('k' = 300)"), "k")}},
+	// Nullable and LowCardinality hand Infer on like Array does (repaired for this extension: they had no Infer method)
+	{leaves: c18Leafs(c18DT64), wrap: func(l []proto.Column) proto.Column { return l[0].(*proto.ColDateTime64).Nullable() },
+		variants: []c18NestVar{
+			c18NV("Nullable(DateTime64(3))", ss("DateTime64(3)")), c18NV("Nullable(DateTime64(6))", ss("DateTime64(6)")),
+			c18NV("Nullable(DateTime64(9, 'UTC'))", ss("DateTime64(9, 'UTC')")), c18NV("Nullable(DateTime64(0))", ss("DateTime64(0)"))}},
+	{leaves: c18Leafs(c18DT64), wrap: func(l []proto.Column) proto.Column {
+		return proto.NewArray[proto.Nullable[time.Time]](l[0].(*proto.ColDateTime64).Nullable())
+	}, variants: []c18NestVar{
+		c18NV("Array(Nullable(DateTime64(3)))", ss("DateTime64(3)")), c18NV("Array(Nullable(DateTime64(6)))", ss("DateTime64(6)")),
+		c18NV("Array(Nullable(DateTime64(9, 'UTC')))", ss("DateTime64(9, 'UTC')"))}},
+	{leaves: c18Leafs(c18DT), wrap: func(l []proto.Column) proto.Column { return l[0].(*proto.ColDateTime).Nullable() },
+		variants: []c18NestVar{
+			c18NV("Nullable(DateTime)", ss("DateTime")), c18NV("Nullable(DateTime('UTC'))", ss("DateTime('UTC')")),
+			c18NV("Nullable(DateTime('Europe/Moscow'))", ss("DateTime('Europe/Moscow')"))}},
+	{leaves: c18Leafs(c18DT64), wrap: func(l []proto.Column) proto.Column {
+		return proto.NewMap[string, proto.Nullable[time.Time]](new(proto.ColStr), l[0].(*proto.ColDateTime64).Nullable())
+	}, variants: []c18NestVar{
+		c18NV("Map(String, Nullable(DateTime64(3, 'UTC')))", ss("DateTime64(3, 'UTC')")),
+		c18NV("Map(String, Nullable(DateTime64(6)))", ss("DateTime64(6)"))}},
+	{leaves: c18Leafs(c18DT), wrap: func(l []proto.Column) proto.Column { return l[0].(*proto.ColDateTime).LowCardinality() },
+		variants: []c18NestVar{
+			c18NV("LowCardinality(DateTime)", ss("DateTime")), c18NV("LowCardinality(DateTime('UTC'))", ss("DateTime('UTC')")),
+			c18NV("LowCardinality(DateTime('Europe/Moscow'))", ss("DateTime('Europe/Moscow')"))}},
+}
+
+// c18NestCol builds the structure around leaves carrying the parameters of variant v (nil: leaves without parameters)
+func c18NestCol(ns c18NestSpec, v *c18NestVar) (col proto.Column, err error) {
+	defer func() {
+		if p := recover(); p != nil {
+			err = fmt.Errorf("panic: %v", p)
+		}
+	}()
+	var ls []proto.Column
+	for i, mk := range ns.leaves {
+		leaf := mk()
+		if v != nil {
+			if err := leaf.(proto.Inferable).Infer(proto.ColumnType(v.leafs[i])); err != nil {
+				return nil, err
+			}
+		}
+		ls = append(ls, leaf)
+	}
+	col = ns.wrap(ls)
+	if v != nil && c18Family(string(col.Type())) != c18Family(v.typ) {
+		return nil, fmt.Errorf("built %q for %q", col.Type(), v.typ)
+	}
+	return col, nil
+}
+
+func c18NestedFam(h *H, n int) {
+	for i := 0; i < n; i++ {
+		k := 1 + h.R.Intn(2)
+		var nss []c18NestSpec
+		var names []string
+		for j := 0; j < k; j++ {
+			nss = append(nss, c18Nests[h.R.Intn(len(c18Nests))])
+			names = append(names, c18Name(h, j))
+		}
+		// targets: leaves without parameters, or already carrying the parameters of some variant
+		var res proto.Results
+		ok := true
+		for j, ns := range nss {
+			var as *c18NestVar
+			if h.R.Intn(2) == 0 {
+				as = &ns.variants[h.R.Intn(len(ns.variants))]
+			}
+			col, err := c18NestCol(ns, as)
+			if err != nil {
+				h.Stat("c18.skipped.nested.target")
+				ok = false
+				break
+			}
+			if as != nil && h.R.Intn(2) == 0 {
+				_ = c14Fill(col, 1+h.R.Intn(2), rand.New(rand.NewSource(h.R.Int63())), c14ColSpec{strPool: as.pool})
+			}
+			name := names[j]
+			if h.R.Intn(3) == 0 {
+				name = ""
+			}
+			res = append(res, proto.ResultColumn{Name: name, Data: col})
+		}
+		if !ok {
+			continue
+		}
+		rev := c18Rev(h)
+		nblocks := 2 + h.R.Intn(2)
+		var blks []c18Blk
+		for b := 0; b < nblocks && ok; b++ {
+			rows := c18RowCounts[h.R.Intn(len(c18RowCounts))]
+			var srcs []c18Src
+			for j, ns := range nss {
+				v := ns.variants[h.R.Intn(len(ns.variants))]
+				col, err := c18NestCol(ns, &v)
+				if err == nil {
+					err = c14Fill(col, rows, rand.New(rand.NewSource(h.R.Int63())), c14ColSpec{strPool: v.pool})
+				}
+				if err != nil {
+					h.Stat("c18.skipped.nested.source")
+					ok = false
+					break
+				}
+				srcs = append(srcs, c18Src{name: names[j], col: col})
+			}
+			if !ok {
+				break
+			}
+			_, wire, err := c18Encode(rev, c18Info(h), rows, srcs)
+			if err != nil {
+				h.Stat("c18.skipped.nested.encode")
+				ok = false
+				break
+			}
+			blks = append(blks, c18Blk{wire: wire, rows: rows, srcs: srcs, wellFormed: true,
+				mustBind: "nested: a block whose types differ from the targets' in leaf parameters only"})
+		}
+		if !ok || len(blks) == 0 {
+			continue
+		}
+		c18RunSeq(h, "nested", false, rev, res, blks)
+	}
+}
+
+// ---------------------------------------------------------------- a failed bind, then well-formed blocks
+
+func c18Damage(h *H, wire []byte) []byte {
+	w := append([]byte{}, wire...)
+	if len(w) == 0 {
+		return w
+	}
+	switch h.R.Intn(5) {
+	case 0, 1: // cut: the typical half decode
+		return w[:h.R.Intn(len(w))]
+	case 2:
+		w[h.R.Intn(len(w))] = []byte{0, 1, 2, 0x7f, 0x80, 0xff}[h.R.Intn(6)]
+	case 3:
+		w[h.R.Intn(len(w))] ^= 1 << uint(h.R.Intn(8))
+	default: // cut inside the last quarter: the earlier columns decode, the last one half
+		return w[:len(w)-1-h.R.Intn(1+len(w)/4)]
+	}
+	return w
+}
+
+func c18FailBind(h *H, sources []c18Spec, n int) {
+	for i := 0; i < n; i++ {
+		k := 1 + h.R.Intn(3)
+		var specs []c18Spec
+		var names []string
+		autoable := true
+		for j := 0; j < k; j++ {
+			s := sources[h.R.Intn(len(sources))]
+			for s.noBind {
+				s = sources[h.R.Intn(len(sources))]
+			}
+			specs = append(specs, s)
+			names = append(names, c18Name(h, j))
+			if !s.autoable() {
+				autoable = false
+			}
+		}
+		var tgts []c18Tgt
+		auto := false
+		switch mode := h.R.Intn(6); {
+		case mode == 0 && autoable:
+			auto = true
+		case mode == 1 && autoable:
+			for j := range specs {
+				tgts = append(tgts, c18Tgt{name: names[j], auto: true})
+			}
+		default:
+			for j, s := range specs {
+				t := c18Tgt{spec: s, name: names[j], prefill: h.R.Intn(3)}
+				if h.R.Intn(4) == 0 {
+					t.name = ""
+				}
+				tgts = append(tgts, t)
+			}
+		}
+		res, err := c18Targets(h, tgts)
+		if err != nil {
+			h.Stat("c18.skipped.target")
+			continue
+		}
+		rev := c18Rev(h)
+		good := func(why string) (c18Blk, bool) {
+			rows := c18RowCounts[1+h.R.Intn(len(c18RowCounts)-1)]
+			if h.R.Intn(8) == 0 {
+				rows = 0
+			}
+			srcs, err := c18Sources(h, specs, names, rows)
+			if err != nil {
+				return c18Blk{}, false
+			}
+			_, wire, err := c18Encode(rev, c18Info(h), rows, srcs)
+			if err != nil {
+				return c18Blk{}, false
+			}
+			return c18Blk{wire: wire, rows: rows, srcs: srcs, wellFormed: true, mustBind: why}, true
+		}
+		var blks []c18Blk
+		if h.R.Intn(3) == 0 { // a block that binds first, so that the failing one meets targets holding real rows
+			if b, ok := good("roundtrip: a block of the targets' own schema"); ok {
+				blks = append(blks, b)
+			}
+		}
+		bad, ok := good("")
+		if !ok {
+			h.Stat("c18.skipped.source")
+			continue
+		}
+		if bad.rows == 0 {
+			bad, ok = good("")
+			if !ok {
+				continue
+			}
+		}
+		dmg := h.R.Intn(6)
+		if auto && dmg == 0 {
+			dmg = 1 // Results.Auto() on empty Results takes its schema from the first block that decodes
+		}
+		switch dmg {
+		case 0: // a foreign schema: one column of another type (well formed, fails at that column or binds)
+			bs := append([]c18Spec{}, specs...)
+			j := h.R.Intn(k)
+			bs[j] = sources[h.R.Intn(len(sources))]
+			srcs, err := c18Sources(h, bs, names, bad.rows)
+			if err != nil {
+				continue
+			}
+			_, wire, err := c18Encode(rev, c18Info(h), bad.rows, srcs)
+			if err != nil {
+				continue
+			}
+			bad = c18Blk{wire: wire, rows: bad.rows, srcs: srcs, wellFormed: true}
+		default:
+			bad = c18Blk{wire: c18Damage(h, bad.wire), rows: bad.rows, srcs: bad.srcs, wellFormed: false}
+		}
+		blks = append(blks, bad)
+		for m, more := 0, 1+h.R.Intn(2); m < more; m++ {
+			if b, ok := good("failbind: after a failed block a well-formed block of the targets' own schema"); ok {
+				blks = append(blks, b)
+			}
+		}
+		c18RunSeq(h, "failbind", auto, rev, res, blks)
+	}
+}
+
+// ---------------------------------------------------------------- composite types of different arity
+
+func c18Tup(mk func() proto.Column) c18Spec { return c18Spec{c14ColSpec: c14ColSpec{mk: mk}} }
+
+// tuples whose element lists are prefixes of one another (ColTuple is not a ColumnOf[T]: it cannot be put below Array or
+// Nullable), maps under an alias type string of another arity, also below Array
+var c18Arities = []c18Spec{
+	c18Tup(func() proto.Column { return proto.ColTuple{new(proto.ColInt8)} }),
+	c18Tup(func() proto.Column { return proto.ColTuple{new(proto.ColInt8), new(proto.ColStr)} }),
+	c18Tup(func() proto.Column { return proto.ColTuple{new(proto.ColInt8), new(proto.ColStr), new(proto.ColInt64)} }),
+	c18Tup(func() proto.Column { return proto.ColTuple{new(proto.ColInt8), new(proto.ColInt64)} }),
+	c18Tup(func() proto.Column { return proto.ColTuple{new(proto.ColStr)} }),
+	c18Tup(func() proto.Column { return proto.ColTuple{new(proto.ColStr), new(proto.ColStr)} }),
+	c18Tup(func() proto.Column { return proto.ColTuple{proto.Named[int8](new(proto.ColInt8), "a")} }),
+	c18Tup(func() proto.Column {
+		return proto.ColTuple{proto.Named[int8](new(proto.ColInt8), "a"), proto.Named[string](new(proto.ColStr), "b")}
+	}),
+	c18Tup(func() proto.Column { return proto.NewMap[string, string](new(proto.ColStr), new(proto.ColStr)) }),
+	c18TupAs("Map(String)", func() proto.Column { return proto.NewMap[string, string](new(proto.ColStr), new(proto.ColStr)) }),
+	c18TupAs("Map(String, String, String)", func() proto.Column { return proto.NewMap[string, string](new(proto.ColStr), new(proto.ColStr)) }),
+	c18Tup(func() proto.Column {
+		return proto.NewArray[map[string]string](proto.NewMap[string, string](new(proto.ColStr), new(proto.ColStr)))
+	}),
+	c18TupAs("Array(Map(String))", func() proto.Column {
+		return proto.NewArray[map[string]string](proto.NewMap[string, string](new(proto.ColStr), new(proto.ColStr)))
+	}),
+	c18TupAs("Array(Map(String, String, String))", func() proto.Column {
+		return proto.NewArray[map[string]string](proto.NewMap[string, string](new(proto.ColStr), new(proto.ColStr)))
+	}),
+}
+
+func c18TupAs(alias string, mk func() proto.Column) c18Spec {
+	s := c18Tup(mk)
+	s.alias = alias
+	return s
+}
+
+func c18IsAlias(s c18Spec) bool { return s.alias != "" }
+
+func c18Arity(h *H) {
+	str := c18T("String")
+	for _, src := range c18Arities {
+		for _, tgt := range c18Arities {
+			if c18IsAlias(tgt) { // an alias cannot be dumped: sources only
+				continue
+			}
+			rows := 1 + h.R.Intn(2)
+			t := c18Tgt{spec: tgt, name: "v"}
+			if h.R.Intn(3) == 0 {
+				t.prefill = 1
+			}
+			c18One(h, "arity", c18Rev(h), []c18Spec{src, str}, []string{"v", "w"}, rows,
+				[]c18Tgt{t, {spec: str, name: "w"}}, false, false)
+		}
 	}
 }
